@@ -92,6 +92,44 @@ def _run(cmd, cwd=None, env=None, timeout=1800, check=True, capture=True):
     return p
 
 
+def gen_disasm_table(vdir):
+    """cpu_list[] only knows the range printers; the single-instruction decoders
+    (same signature for all CPUs) are found by name in disasm/*.h and *.cpp."""
+    ddir = os.path.join(vdir, "disasm")
+    pairs = []
+    for h in sorted(os.listdir(ddir)):
+        if not h.endswith(".h"):
+            continue
+        txt = open(os.path.join(ddir, h)).read()
+        cpp = os.path.join(ddir, h[:-2] + ".cpp")
+        ctxt = open(cpp).read() if os.path.exists(cpp) else ""
+        ranges = re.findall(r"void\s+disasm_range_(\w+)\s*\(", txt)
+        singles = set(re.findall(r"int\s+disasm_(\w+)\s*\(", txt))
+        defined = set(re.findall(r"(?m)^int\s+disasm_(\w+)\s*\(", ctxt))
+        for r in ranges:
+            if r in singles:
+                pairs.append((h, r, False))
+            elif r in defined:
+                pairs.append((h, r, True))
+    with open(os.path.join(vdir, "disasm_table.h"), "w") as fh:
+        fh.write("#include <stdint.h>\n#include \"core/Memory.h\"\n#include \"core/cpu_list.h\"\n"
+                 "typedef int (*disasm_one_t)(Memory *, uint32_t, char *, int, int, int *, int *);\n"
+                 "struct NvDisasmEntry { disasm_range_t range; disasm_one_t one; const char *name; };\n"
+                 "extern NvDisasmEntry nv_disasm_table[];\n")
+    with open(os.path.join(vdir, "disasm_table.cpp"), "w") as fh:
+        fh.write("#include \"disasm_table.h\"\n")
+        for h in sorted({p[0] for p in pairs}):
+            fh.write("#include \"disasm/%s\"\n" % h)
+        for h, r, ext in pairs:
+            if ext:
+                fh.write("int disasm_%s(Memory *, uint32_t, char *, int, int, int *, int *);\n" % r)
+        fh.write("NvDisasmEntry nv_disasm_table[] = {\n")
+        for h, r, ext in pairs:
+            fh.write("  { disasm_range_%s, disasm_%s, \"%s\" },\n" % (r, r, r))
+        fh.write("  { 0, 0, 0 }\n};\n")
+    return pairs
+
+
 def ensure_build(variant="rel"):
     """Build /repo's current working tree out of tree; returns the directory
     holding naken_asm, naken_util, build/naken_asm.a and conform."""
@@ -126,10 +164,11 @@ def ensure_build(variant="rel"):
             if not os.path.exists(os.path.join(vdir, exe)):
                 raise InfraError("build did not produce " + exe)
         # conformance driver
+        gen_disasm_table(vdir)
         hsrc = os.path.join(VERIF, "harness")
         srcs = [os.path.join(hsrc, f) for f in sorted(os.listdir(hsrc)) if f.endswith(".cpp")]
         _run([v["cxx"]] + v["cflags"].split() + ["-std=c++17", "-Wno-unused", "-I" + vdir, "-I" + hsrc,
-              "-o", os.path.join(vdir, "conform")] + srcs +
+              "-o", os.path.join(vdir, "conform")] + srcs + [os.path.join(vdir, "disasm_table.cpp")] +
              [os.path.join(vdir, "build", "naken_asm.a")] + v["ldflags"].split() + ["-lreadline"],
              cwd=vdir)
         open(stamp, "w").write("%s %.1fs\n" % (h, time.time() - t0))
